@@ -125,7 +125,8 @@ class E3Check(Check):
         "project_with_cached_positions", "compute_ape", "compute_rpe",
         "compute_main_ape", "compute_merge_results",
         "compute_umeyama_contiguous", "compute_lie", "compute_plot",
-        "time_range_absolute_bounds",
+        "time_range_absolute_bounds", "compute_plot_optional_args",
+        "built_from_all_three",
     )
 
     def setup_worker(self):
